@@ -281,11 +281,15 @@ func VerifyCosmosHeader(myHeader *CosmosHeader, info *CosmosEpochSwitchInfo) err
 		return fmt.Errorf("VerifyCosmosHeader, the size of precommits is not right!")
 	}
 	talliedVotingPower := int64(0)
-	for _, commitSig := range myHeader.Commit.Precommits {
+	for slot, commitSig := range myHeader.Commit.Precommits {
 		if commitSig == nil {
 			continue
 		}
 		idx := commitSig.ValidatorIndex
+		// a precommit counts for the validator of its slot only, else one vote can be repeated in every slot
+		if idx != slot {
+			return fmt.Errorf("VerifyCosmosHeader, precommit in slot %d claims validator index %d", slot, idx)
+		}
 		_, val := valset.GetByIndex(idx)
 		if val == nil {
 			return fmt.Errorf("VerifyCosmosHeader, validator %d doesn't exist!", idx)
